@@ -184,6 +184,11 @@ impl Table {
             .collect()
     }
 
+    /// `KBucketRef::contains(d)` of every bucket yielded by `iter()`, in order.
+    pub fn buckets_contain(&mut self, d: &Distance) -> Vec<bool> {
+        self.0.iter().map(|b| b.contains(d)).collect()
+    }
+
     pub fn count_nodes_between(&mut self, target: &KeyBytes) -> usize {
         self.0.count_nodes_between(target)
     }
